@@ -380,13 +380,41 @@ func FieldBase(v ssa.Value) ssa.Value {
 			}
 			return nil
 		case *ssa.FieldAddr:
-			return stripConv(x.X)
+			return unspillParam(stripConv(x.X))
 		case *ssa.Field:
-			return stripConv(x.X)
+			return unspillParam(stripConv(x.X))
 		}
 		return nil
 	}
 	return nil
+}
+
+// unspillParam: a struct parameter whose fields are addressed is copied to a local cell on entry (`*t0 = param`); the cell
+// stands for the parameter (and, during wrapper lifting, for the argument bound to it).
+func unspillParam(v ssa.Value) ssa.Value {
+	a, ok := v.(*ssa.Alloc)
+	if !ok {
+		return v
+	}
+	var only ssa.Value
+	n := 0
+	for _, ref := range *a.Referrers() {
+		if st, isStore := ref.(*ssa.Store); isStore && st.Addr == ssa.Value(a) {
+			n++
+			only = st.Val
+		}
+	}
+	if prm, isParam := only.(*ssa.Parameter); n == 1 && isParam {
+		w := stripConv(prm)
+		// the argument bound to the parameter is itself the content of a local struct variable of the caller: that variable
+		if ld, isLoad := w.(*ssa.UnOp); isLoad && ld.Op == token.MUL {
+			if al, isAlloc := ld.X.(*ssa.Alloc); isAlloc {
+				return al
+			}
+		}
+		return w
+	}
+	return v
 }
 
 func fieldNameIs(t types.Type, idx int, typ, field string) bool {
@@ -903,3 +931,35 @@ func (p VPat) M0(other VPat) bool {
 }
 
 var zeroConst = ssa.NewConst(constant.MakeInt64(0), types.Typ[types.Int])
+
+// LookupV matches m[key] for a map value matching m and the constant string key.
+func LookupV(m VPat, key string) VPat {
+	return VPat{m.Desc + "[\"" + key + "\"]", func(v ssa.Value) bool {
+		v = stripConv(v)
+		if ex, ok := v.(*ssa.Extract); ok && ex.Index == 0 {
+			v = ex.Tuple
+		}
+		lk, ok := v.(*ssa.Lookup)
+		if !ok {
+			return false
+		}
+		k, isC := ConstString(stripConv(lk.Index))
+		return isC && k == key && (m.M(lk.X) || m.M(stripConv(lk.X)))
+	}}
+}
+
+// IsParamOrItsCell: v is the parameter `name` (baseline name), a load of it, or the local cell the parameter was spilled to
+// (go/ssa spills a parameter whose address is taken or that a closure captures).
+func IsParamOrItsCell(v ssa.Value, name string) bool {
+	if ParamV(name).M(v) {
+		return true
+	}
+	if a, ok := stripConv(v).(*ssa.Alloc); ok {
+		for _, prm := range a.Parent().Params {
+			if prm.Name() == a.Comment && BaselineParamName(prm) == name {
+				return true
+			}
+		}
+	}
+	return false
+}
